@@ -300,6 +300,12 @@ fn run12(ctx: &Ctx) {
         let v = check12(&mut runner.borrow_mut(), &mut case, &both, if frozen { None } else { Some(&mut st) }, "dense");
         (v, if want_case { case.to_json() } else { Value::Null })
     });
+    // page edges: the JIT sizes its buffer in whole pages; for every instruction form measure the
+    // code it expands to (hook H2) and compile programs whose code ends just below, at and just
+    // above each page multiple - homogeneous, and random mixtures of the densest forms
+    if page_edges(ctx, &runner) {
+        return;
+    }
     // long programs: JIT only (Cranelift is capped by compile time)
     let cases = ctx.share(ctx.tier.pick(96, 2400));
     ctx.shrink_iters.set(100);
@@ -341,6 +347,139 @@ fn run12(ctx: &Ctx) {
             }
         }
     }
+}
+
+/// All single-instruction forms the verifier accepts in a straight-line program: every supported
+/// opcode x operand variants that change the machine encoding (register pairs from both halves of
+/// the host register file, short / long displacements and immediates).
+fn insn_forms() -> Vec<Vec<Insn>> {
+    let mut forms = Vec::new();
+    let regs: [(u8, u8); 14] = [(0, 1), (1, 0), (2, 6), (3, 3), (4, 5), (5, 9), (6, 2), (7, 8), (8, 7), (9, 4), (1, 10), (7, 10), (0, 7), (9, 0)];
+    for opc in supported_opcodes() {
+        let k = kind_of(opc).unwrap();
+        let hi = opc >> 4;
+        let imms: Vec<i32> = match k {
+            Kind::AluImm if matches!(hi, ALU_LSH | ALU_RSH | ALU_ARSH) => vec![1, 31],
+            Kind::AluImm => vec![1, 0x1234_5678, -1],
+            Kind::Endian => vec![16, 32, 64],
+            Kind::JmpImm | Kind::St => vec![0, 0x1234_5678, -1],
+            Kind::LdAbs | Kind::LdInd => vec![0, 0x400],
+            Kind::Call => vec![1],
+            _ => vec![0],
+        };
+        let offs: Vec<i16> = match k {
+            Kind::Ldx | Kind::St | Kind::Stx | Kind::Xadd => vec![0, -8, -512],
+            _ => vec![0],
+        };
+        let u = uses_of(k);
+        for &(d, s) in &regs {
+            if !u.dst && !u.src && d != 0 {
+                continue;
+            }
+            // r10 is read-only: it may only be a source (or the base of a store)
+            let (d, s) = if matches!(k, Kind::St | Kind::Stx | Kind::Xadd) { (s, d) } else { (d, s) };
+            if d == 10 && !matches!(k, Kind::St | Kind::Stx | Kind::Xadd) {
+                continue;
+            }
+            if k == Kind::Call && s != 0 {
+                continue;
+            }
+            for &imm in &imms {
+                for &off in &offs {
+                    let i = Insn::new(opc, if u.dst { d } else { 0 }, if u.src { s } else { 0 }, off, imm);
+                    let f = if k == Kind::Lddw { vec![Insn::new(opc, d, 0, 0, imm), Insn::new(0, 0, 0, 0, -1)] } else if k == Kind::Exit { continue } else { vec![i] };
+                    if !forms.contains(&f) {
+                        forms.push(f);
+                    }
+                }
+            }
+        }
+    }
+    forms
+}
+
+fn edge_case(units: &[&Vec<Insn>]) -> ExecCase {
+    let mut insns: Vec<Insn> = units.iter().flat_map(|f| f.iter().copied()).collect();
+    insns.push(Insn::new(EXIT, 0, 0, 0, 0));
+    let mut c = ExecCase::new(VmKind::NoData, encode_prog(&insns));
+    c.helpers = vec![(1, 0)];
+    c
+}
+
+/// Returns true when a violation was recorded.
+fn page_edges(ctx: &Ctx, runner: &RefCell<Runner>) -> bool {
+    const PAGE: i64 = 4096;
+    let jit = [Engine::Jit];
+    let forms = insn_forms();
+    let pages: i64 = ctx.tier.pick(2, 6) as i64;
+    // (form index, bytes per unit, bytes of everything else)
+    let mut sized: Vec<(usize, i64, i64)> = Vec::new();
+    for (fi, f) in forms.iter().enumerate() {
+        if fi % ctx.nworkers != ctx.worker {
+            continue;
+        }
+        let mut len = [0i64; 2];
+        for (slot, n) in [(0usize, 2usize), (1, 3)] {
+            let mut case = edge_case(&vec![f; n]);
+            case.compile_only = true;
+            let r = runner.borrow_mut().run(&case, &jit);
+            len[slot] = match r[0].outcome {
+                Outcome::CompiledOnly => r[0].code_len as i64,
+                _ => -1,
+            };
+        }
+        let unit = len[1] - len[0];
+        if len[0] <= 0 || unit <= 0 {
+            // not compilable on its own (or the hook is off): the other streams cover it
+            ctx.stats().class(&format!("page-edge:form-not-measured:{:#04x}", f[0].opc));
+            continue;
+        }
+        sized.push((fi, unit, len[0] - 2 * unit));
+        for k in 1..=pages {
+            let cross = (k * PAGE - (len[0] - 2 * unit)).div_euclid(unit);
+            for n in [cross - 1, cross, cross + 1] {
+                if n < 1 {
+                    continue;
+                }
+                let mut case = edge_case(&vec![f; n as usize]);
+                let mut st = ctx.stats();
+                let v = check12(&mut runner.borrow_mut(), &mut case, &jit, Some(&mut st), "page-edge");
+                st.class(&format!("page-edge:{}-page", k));
+                drop(st);
+                if ctx.enumerate_case(v, "jit", || case.to_json()) {
+                    return true;
+                }
+            }
+        }
+    }
+    // mixtures of the densest forms of this worker's share
+    sized.sort_by_key(|&(fi, unit, _)| (std::cmp::Reverse(unit * 8 / forms[fi].len() as i64), fi));
+    sized.truncate(24);
+    if sized.is_empty() {
+        return false;
+    }
+    let base = sized.iter().map(|s| s.2).max().unwrap_or(64);
+    let cases = ctx.share(ctx.tier.pick(6_400, 160_000));
+    let strat = (1..=pages, -96i64..=96, prop::collection::vec(any::<u16>(), 1200));
+    ctx.search("page-edge-mix", "jit", cases, strat, |(k, delta, picks), want_case| {
+        let target = k * PAGE + delta - base;
+        let mut total = 0i64;
+        let mut units = Vec::new();
+        for p in picks {
+            if total >= target {
+                break;
+            }
+            let (fi, unit, _) = sized[(*p as usize * sized.len()) >> 16];
+            units.push(&forms[fi]);
+            total += unit;
+        }
+        let mut case = edge_case(&units);
+        let mut st = ctx.stats();
+        let frozen = st.is_frozen() || want_case;
+        let v = check12(&mut runner.borrow_mut(), &mut case, &jit, if frozen { None } else { Some(&mut st) }, "page-edge-mix");
+        (v, if want_case { case.to_json() } else { Value::Null })
+    });
+    false
 }
 
 fn million_case(n: usize) -> ExecCase {
